@@ -89,4 +89,16 @@ func init() {
 		Gen: genC11, Exec: execC11,
 		Assumes: []string{"only crash, panic, non-return and unreported unconditional cycles are violations; data-bounded recursion may return output or an error", "robustness against arbitrary byte strings as templates and arbitrary typed data is input fuzzing and is not claimed", "non-return is decided by a kernel step budget three orders above the largest legitimate run, not by wall-clock"},
 	})
+	register(&Driver{
+		ID: "C09", Race: true, Level: "exploration",
+		Rule: "one run = 2-4 tasks (thorough: up to 12) x 1-2 render operations each on ONE shared engine and base template (Vue.Render, RenderFragment, Load.Render, RenderFile, RenderString, and RenderFile/RenderString straight on the base template), cold or warmed caches, same page or different pages sharing components and layouts, per-task data or one shared read-only data value, unseen expressions and paths, files edited underneath at kernel steps in 35% of runs; the kernel's seeded scheduler (run-to-completion order, PCT with 1-5 change points, uniform random at 0.4% / 3% / 30% of yield points) decides every interleaving over the yield sites simgen inserted; workers are -race builds with an invisible baton and std sync.Pool neutralised. Oracles: zero race reports, each task's (bytes, error) equals the same operation alone on a fresh engine over the file versions it observed, no foreign tag, no poison, no panic/deadlock, engine not corrupted afterwards. distinct = distinct interleavings (hash of the task-switch sequence) plus configuration and reach probes",
+		Runs: func(tier string) int {
+			if tier == "thorough" {
+				return 30000
+			}
+			return 1200
+		},
+		Gen: genC09, Exec: execC09,
+		Assumes: []string{"the race detector reports only races among executed accesses not ordered by the program's own synchronisation; a race hidden by an incidental program-owned happens-before edge in the sampled schedules is missed", "a render that observed two versions of one file (an edit landed mid-call) is not compared byte-for-byte", "interleavings inside dependencies are not explored (their memory accesses are still seen by the detector)"},
+	})
 }
